@@ -10,7 +10,7 @@ import (
 
 func init() {
 	register(&Property{ID: "C04", Gen: genC04, Decode: decodeProto})
-	register(&Property{ID: "C10", Gen: genC10, Decode: decodeProto})
+	register(&Property{ID: "C10", Gen: genC10, Decode: decodeEither(decodeProto)})
 }
 
 func mutateName(g *Gen, n string) string {
@@ -151,7 +151,17 @@ var wrongShapes = []string{`[]`, `[1,2]`, `"str"`, `5`, `-0.5e3`, `true`, `null`
 	`{"method":"a.b.M","oneway":1}`, `{"method":"a.b.M","more":"true"}`, `{"method":"a.b.M","upgrade":[]}`, `{`, `}`, `{"method":"a.b.M"`, `{"method":"a.b.M",}`,
 	`{"method":"a.b.M"}}`, `{"method":"a.b.M"} x`, `nul`, `{'method':'a.b.M'}`, `{"method":"a.b.M","parameters":}`, "\xff\xfe", ` `, ``, `{"method":"a.b.M","parameters":{"cid":1}}garbage`}
 
+// genC10: hostile byte streams against one serving round, and (one run in
+// sixteen) the release clause across serving rounds.
 func genC10(seed uint64, tier string) Scenario {
+	g := NewGen(seed, 0xC10A)
+	if g.IntN(16) == 0 {
+		return wrapMix("life", genRelease(g, "C10"))
+	}
+	return genC10Proto(seed, tier)
+}
+
+func genC10Proto(seed uint64, tier string) Scenario {
 	g := NewGen(seed, 0xC10)
 	s := &ProtoScenario{Prop: "C10", Config: genConfig(g), Scripts: map[int]Script{}, Faulted: true}
 	s.Service = genService(g, 1+g.IntN(2), "unix:@c10")
